@@ -32,6 +32,22 @@ class Infeasible(PathAbort):
 
 
 _cur = None
+import os as _os
+import sys as _sys
+TRACE_FORKS = bool(_os.environ.get('SYMX_TRACE_FORKS'))
+
+
+def _site():
+    f = _sys._getframe(2)
+    out = []
+    while f is not None and len(out) < 3:
+        fn = f.f_code.co_filename
+        if '/symx/' not in fn:
+            out.append('%s:%d' % (fn.replace('/repo/', '').replace(
+                '/verif/', ''), f.f_lineno))
+        f = f.f_back
+    return ' < '.join(out)
+
 
 
 def cur():
@@ -65,11 +81,18 @@ class Path:
         self.prefix = list(prefix)
         self.decisions = []
         self.logic = logic
-        if logic:
+        if logic and logic not in ('QF_AUFBV', 'default'):
             self.solver = z3.SolverFor(logic)
         else:
+            # measured: SolverFor('QF_AUFBV') hangs (ignoring the timeout) on
+            # select-equality obligations the default solver decides in ms
             self.solver = z3.Solver()
         self.solver.set('timeout', timeout_ms)
+        self.timeout_ms = timeout_ms
+        self.incremental = bool(logic) and logic not in ('QF_AUFBV',
+                                                        'default')
+        self._last = self.solver
+        self.dcache = {}
         if seed:
             try:
                 self.solver.set('random_seed', seed & 0x7fffffff)
@@ -84,6 +107,7 @@ class Path:
         self.input_names = set()
         self.notes = []
         self.max_decisions = 200000
+        self.fork_sites = {}
 
     # -- fresh variables -------------------------------------------------
     def fresh_name(self, base):
@@ -94,14 +118,30 @@ class Path:
     def _check(self, *extra):
         import time
         t = time.time()
-        r = self.solver.check(*extra)
+        if self.incremental:
+            r = self.solver.check(*extra)
+            self._last = self.solver
+        else:
+            # non-incremental: z3's incremental core was measured to hang
+            # (ignoring its timeout) on array/select-equality queries that
+            # the tactic pipeline decides in milliseconds
+            s2 = z3.Solver()
+            s2.set('timeout', self.timeout_ms)
+            s2.add(*self.pc)
+            if extra:
+                s2.add(*extra)
+            r = s2.check()
+            self._last = s2
         self.stats.solver_s += time.time() - t
         self.stats.checks += 1
         if r == z3.unknown:
             self.stats.unknown += 1
             raise EngineLimit('solver returned unknown: %s' %
-                              self.solver.reason_unknown())
+                              self._last.reason_unknown())
         return r == z3.sat
+
+    def last_model(self):
+        return self._last.model()
 
     def feasible(self, cond):
         """Is pc /\\ cond satisfiable?  Caches the model when sat."""
@@ -111,7 +151,7 @@ class Path:
                 return True
         ok = self._check(cond)
         if ok:
-            self.model = self.solver.model()
+            self.model = self.last_model()
         return ok
 
     def assume(self, cond):
@@ -123,7 +163,8 @@ class Path:
                 raise Infeasible('assume(False)')
             return
         self.pc.append(cond)
-        self.solver.add(cond)
+        if self.incremental:
+            self.solver.add(cond)
         if self.model is not None:
             v = self.model.eval(cond, model_completion=True)
             if not z3.is_true(v):
@@ -133,7 +174,7 @@ class Path:
         if self.model is None:
             if not self._check():
                 raise Infeasible('path condition unsatisfiable')
-            self.model = self.solver.model()
+            self.model = self.last_model()
         return self.model
 
     # -- decisions -----------------------------------------------------------
@@ -148,6 +189,15 @@ class Path:
             return True
         if z3.is_false(cond):
             return False
+        cid = cond.get_id()
+        hit = self.dcache.get(cid)
+        if hit is not None and hit[0].eq(cond):
+            return hit[1]
+        r = self._decide(cond)
+        self.dcache[cid] = (cond, r)
+        return r
+
+    def _decide(self, cond):
         k = len(self.decisions)
         if k >= self.max_decisions:
             raise EngineLimit('too many decisions on one path')
@@ -155,8 +205,9 @@ class Path:
         if k < len(self.prefix):
             choice = self.prefix[k]
             self.decisions.append(choice)
-            self.assume(cond if choice else z3.Not(cond))
-            return bool(choice)
+            if choice < 2:
+                self.assume(cond if choice else z3.Not(cond))
+            return bool(choice & 1)
         ncond = z3.Not(cond)
         mv = None
         if self.model is not None:
@@ -173,28 +224,32 @@ class Path:
             ff = True
             ft = self._check(cond)
             if ft:
-                mt = self.solver.model()
+                mt = self.last_model()
         else:
             ft = self._check(cond)
             if ft:
-                mt = self.solver.model()
+                mt = self.last_model()
                 ff = self._check(ncond)
             else:
                 ff = self._check(ncond)
                 if ff:
-                    self.model = self.solver.model()
+                    self.model = self.last_model()
         if ft:
             if mt is not None:
                 self.model = mt
             if ff:
                 self.stats.forks += 1
                 self.pending.append(self.decisions + [0])
-            self.decisions.append(1)
-            self.assume(cond)
+                if TRACE_FORKS:
+                    site = _site()
+                    self.fork_sites[site] = self.fork_sites.get(site, 0) + 1
+                self.decisions.append(1)
+                self.assume(cond)
+            else:
+                self.decisions.append(3)     # forced: implied by pc
             return True
         if ff:
-            self.decisions.append(0)
-            self.assume(ncond)
+            self.decisions.append(2)
             return False
         raise Infeasible('both sides infeasible')
 
